@@ -115,6 +115,13 @@ def typed_equal(a, b):
             return False
         return a.dtype == b.dtype and a.shape == b.shape and bool(
             np.array_equal(a, b, equal_nan=a.dtype.kind == "f"))
+    from twosigma.memento.partition import Partition
+    if isinstance(a, Partition) or isinstance(b, Partition):
+        # partitions of whatever implementation are equal when they hold the same keys with equal values
+        if not (isinstance(a, Partition) and isinstance(b, Partition)):
+            return False
+        ka, kb = sorted(a.list_keys()), sorted(b.list_keys())
+        return ka == kb and all(typed_equal(a.get(k), b.get(k)) for k in ka)
     if isinstance(a, pd.Timestamp) or isinstance(b, pd.Timestamp):
         if type(a) is not type(b):
             return False
